@@ -160,6 +160,10 @@ func evalC128(c *core.Ctx, cs *core.Case) {
 		return code128.EncodeWithoutChecksum(s)
 	})
 	if !ok {
+		if c128Representable(s) == mustAccept {
+			// C05 is stated for every content of its domain, not only for the accepted ones
+			c.Fail("C05", cs, "no symbol for a content of 1..80 characters over the Code 128 alphabet (refused, or the encoder failed)")
+		}
 		return
 	}
 	meta(c, cs, bc, "Code 128", 1, s)
